@@ -22,7 +22,7 @@ def straight(tokens, pre=(), entry=False):
     """FUNCTION {f} {tokens}, run once by EXECUTE (or per entry by ITERATE)"""
     cmds = []
     if entry:
-        cmds.append(cmd('ENTRY', [Id('title'), Id('author'), Id('note')], [Id('ei')], [Id('es')]))
+        cmds.append(cmd('ENTRY', [Id('title'), Id('author'), Id('note'), Id('year')], [Id('ei')], [Id('es')]))
     cmds += [cmd('INTEGERS', [Id('gi')]), cmd('STRINGS', [Id('gs')])]
     cmds += list(pre)
     cmds.append(cmd('FUNCTION', [Id('f')], list(tokens)))
@@ -32,7 +32,7 @@ def straight(tokens, pre=(), entry=False):
         cmds.append(cmd('EXECUTE', [Id('f')]))
     return cmds
 
-BIB2 = '@article{k1, title = {The {T}itle}, author = "A. B and C D"}\n@book{K2, title = "x", note = jan, crossref = {k1}}\n'
+BIB2 = '@article{k1, title = {The {T}itle}, author = "A. B and C D", year = ""}\n@book{K2, title = "x", note = jan, year = {  }, crossref = {k1}}\n'
 
 def admissible(tokens):
     names = [S(t[1]) for t in tokens if t[0] == 2]
@@ -54,7 +54,7 @@ def gen_exhaustive(tier, rng):
         for b in pool:
             for c in pool:
                 toks = (a, b, c)
-                if admissible(toks) and (tier != 'quick' or rng.random() < 0.2):
+                if admissible(toks) and (tier != 'quick' or rng.random() < 0.15):
                     yield ('exhaustive', 1, [straight(toks), [], ''])
     if tier != 'quick':
         for toks in itertools.product(first, pool, pool, pool):
@@ -81,7 +81,7 @@ def gen_exhaustive(tier, rng):
                 pre = [cmd('FUNCTION', [Id('f0')], [])]
                 yield ('exhaustive_assign', 1, [straight([v, t, Id(':='), rd], pre=pre, entry=True), ['k1', 'K2'], BIB2])
     # per-entry programs of <= 2 tokens over the pool + entry things
-    epool = pool + [Id('title'), Id('author'), Id('note'), Id('crossref'), Id('ei'), Id('es'), Q('ei'), Q('es'), Id('sort.key$'), Q('title')]
+    epool = pool + [Id('title'), Id('author'), Id('note'), Id('year'), Id('crossref'), Id('ei'), Id('es'), Q('ei'), Q('es'), Id('sort.key$'), Q('title')]
     for n in (1, 2):
         for toks in itertools.product(epool, repeat=n):
             if admissible(toks) and (tier != 'quick' or n == 1 or rng.random() < 0.5):
@@ -90,7 +90,7 @@ def gen_exhaustive(tier, rng):
 
 # every kind of value (int, str, missing field, field value, function, reference to each kind of interpreter
 # object) as operand of every built-in, inside ITERATE: the dynamic typing of the Python code, exhaustively
-KINDS = [I(0), I(2), Sx(''), Sx('ab'), Id('note'), Id('title'), F(I(1)), F(), Q('gi'), Q('gs'), Q('ei'), Q('es'),
+KINDS = [I(0), I(2), Sx(''), Sx('ab'), Id('note'), Id('title'), Id('year'), F(I(1)), F(), Q('gi'), Q('gs'), Q('ei'), Q('es'),
          Q('title'), Q('crossref'), Q('skip$'), Q('f0')]
 UNARY = ['add.period$', 'chr.to.int$', 'duplicate$', 'empty$', 'int.to.chr$', 'int.to.str$', 'missing$', 'num.names$', 'pop$',
          'purify$', 'text.length$', 'top$', 'warning$', 'width$', 'write$']
@@ -399,11 +399,13 @@ def probe_header(with_default):
     def typ(name, tag):
         return cmd('FUNCTION', [Id(name)], [Sx(tag), Id('write$'), Id('newline$')])
     sep = [Sx(':'), Id('*')]
-    cmds = [cmd('ENTRY', [Id('title')], [Id('n'), Id('m')], [Id('t')]), cmd('INTEGERS', [Id('g')]),
+    cmds = [cmd('ENTRY', [Id('title'), Id('note')], [Id('n'), Id('m')], [Id('t')]), cmd('INTEGERS', [Id('g')]), cmd('MACRO', [Id('emp')], [Sx('')]),
             typ('misc', '[M]'), typ('book', '[B]')] + ([typ('default.type', '[D]')] if with_default else []) + [
             cmd('FUNCTION', [Id('probe.show')], [Sx('<'), Id('cite$'), Id('*')] + sep + [Id('n'), Id('int.to.str$'), Id('*')] + sep +
-                                                [Id('sort.key$'), Id('*')] + sep + [Id('m'), Id('int.to.str$'), Id('*')] + sep + [Id('t'), Id('*'),
-                                                Sx('>'), Id('*'), Id('write$'), Id('newline$'), Id('call.type$')]),
+                                                [Id('sort.key$'), Id('*')] + sep + [Id('m'), Id('int.to.str$'), Id('*')] + sep + [Id('t'), Id('*')] + sep +
+                                                # a field that occurs in the entry, however empty, is a string; only an absent one is missing
+                                                [Id('note'), Id('missing$'), Id('int.to.str$'), Id('*')] + sep + [Id('note'), Id('empty$'), Id('int.to.str$'), Id('*'),
+                                                Sx(':['), Id('*'), Id('note'), Id('*'), Sx(']>'), Id('*'), Id('write$'), Id('newline$'), Id('call.type$')]),
             cmd('FUNCTION', [Id('probe.count')], [Id('g'), I(1), Id('+'), Q('g'), Id(':='), Id('g'), Q('n'), Id(':='),
                                                  Id('g'), I(7), Id('+'), Q('m'), Id(':='), Sx('x'), Id('g'), Id('int.to.str$'), Id('*'), Q('t'), Id(':='),
                                                  Id('title'), Id('duplicate$'), Id('missing$'), F(Id('pop$'), Sx('')), Q('skip$'), Id('if$'), Q('sort.key$'), Id(':='), Id('probe.show')]),
@@ -427,7 +429,19 @@ def order_probe(rng):
         k = rng.random()
         cmds += PROBE_STEPS['sorted' if k < 0.3 else 'iterate' if k < 0.45 else 'reverse' if k < 0.65 else 'count' if k < 0.8 else 'reset' if k < 0.9 else 'reset_rev']
     keys = rng.sample(['k1', 'k2', 'k3', 'k4', 'k5', 'k6', 'k7'], rng.randint(0, 7))
-    bib = ''.join('@%s{%s%s}\n' % (rng.choice(['misc', 'misc', 'book', 'BOOK', 'weird']), k, '' if rng.random() < 0.15 else ', title = {%s}' % rng.choice(PROBE_TITLES)) for k in keys)
+    lines = []
+    for k in keys:
+        fields = []
+        if rng.random() >= 0.15:
+            fields.append('title = {%s}' % rng.choice(PROBE_TITLES))
+        if rng.random() < 0.65:      # present, often empty in one of the ways a .bib file can say it
+            fields.append('note = %s' % rng.choice(['{}', '""', 'emp', '{  }', '" "', '{x}', '"N"', '{}', 'emp # ""']))
+        if rng.random() < 0.35:
+            fields.append('crossref = {%s}' % rng.choice(['p1', 'p2', 'p3']))
+        lines.append('@%s{%s}\n' % (rng.choice(['misc', 'misc', 'book', 'BOOK', 'weird']), ', '.join([k] + fields)))
+    # the cross-referenced parents come last in the file (known finding F13), with a non-empty, an empty and no note
+    lines += ['@book{p1, note = {P}, title = {pt}}\n', '@misc{p2, note = {}}\n', '@misc{p3, title = {q}}\n']
+    bib = ''.join(lines)
     cites = rng.sample(keys, rng.randint(0, len(keys)))
     cites = [c.upper() if rng.random() < 0.2 else c for c in cites]
     if cites and rng.random() < 0.25:
